@@ -30,6 +30,18 @@ def run(ctx):
     t = ctx.tier == "thorough"
     rnd = random.Random(ctx.seed)
     res = ctx.tlc_must_pass("Topology", "Topology_thorough.cfg" if t else "Topology_quick.cfg", workers=4, timeout=1500, name="topology")
+    # unbounded in the number of faults and in the interleaving: TopologyInd.IndInv is inductive (Apalache), holds
+    # initially and implies QuiescentConverged; with the hazard switch the induction step must fail
+    ind = {}
+    base = ["--cinit=CInitConsts", "--next=IndNext"]
+    ind["base"] = ctx.apalache("TopologyInd", base + ["--init=CInit", "--inv=IndInv", "--length=0"], name="inductive-base")
+    ind["step"] = ctx.apalache("TopologyInd", base + ["--init=IndInit", "--inv=IndInv", "--length=1"], name="inductive-step")
+    ind["implies"] = ctx.apalache("TopologyInd", base + ["--init=IndInit", "--inv=QuiescentConverged", "--length=0"], name="inductive-implies")
+    ind["step_with_hazard"] = ctx.apalache("TopologyInd", ["--cinit=CInitHazard", "--next=IndNext", "--init=IndInit", "--inv=IndInv", "--length=1"],
+                                           name="inductive-step-hazard")
+    if [ind["base"], ind["step"], ind["implies"]] != ["NoError"] * 3 or ind["step_with_hazard"] != "Error":
+        raise core.Inconclusive("the inductive convergence proof of TopologyInd.tla does not go through: %s" % ind)
+    ctx.notes["inductive_proof"] = ind
     behs = list(dict.fromkeys(rows(res.output, "BEH")))
     if len(behs) < 50:
         raise core.Inconclusive("TLC exported too few fault sequences (%d)" % len(behs))
@@ -50,7 +62,7 @@ def run(ctx):
     path = ctx.path("topo_behaviours.jsonl")
     open(path, "w").write("\n".join(chosen) + "\n")
     out = ctx.path("topo_result.json")
-    base_ms, max_ms = 5, 400
+    base_ms, max_ms, connect_ms = 5, 400, 400
     ctx.drv(["topo", "-in", path, "-out", out, "-base", str(base_ms), "-max", str(max_ms), "-budget", "8000"], timeout=3000)
     r = json.load(open(out))
     for m in r.get("mismatches") or []:
@@ -73,6 +85,9 @@ def run(ctx):
         nd += 1
         if not (floor <= d["ns"] <= mx):
             ctx.violation("C16:reconnect-delay-out-of-bounds:%s" % d["who"], "reconnect delay %d ns outside [%d, %d]" % (d["ns"], floor, mx), replay=d)
+        elif d.get("waited_ns", 0) and not (floor - 2 * ms <= d["waited_ns"] <= mx + connect_ms * ms + 1500 * ms):
+            # the wait really made (plus one connection attempt of at most the connect timeout, plus scheduling slack)
+            ctx.violation("C16:reconnect-wait-out-of-bounds:%s" % d["who"], "the proxy waited %d ns before its next reconnect step, bounds [%d, %d] (+ connect timeout)" % (d["waited_ns"], floor, mx), replay=d)
         elif d["who"] == "pool" and d["seq"] == 0 and not ((base_ms + 1 + 85) * ms <= d["ns"] < (base_ms + 1 + 115) * ms):
             ctx.violation("C16:reconnect-delay-not-reset-after-success", "first delay after a successful connect is %d ns" % d["ns"], replay=d)
     # Backoff table
@@ -103,6 +118,7 @@ def run(ctx):
         "probes": r["probes"],
         "max_convergence_ms": r["max_convergence_ms"],
         "reconnect_delays_observed": nd,
+        "reconnect_waits_timed": sum(1 for d in r.get("delays") or [] if d.get("waited_ns")),
         "all_down": ad,
         "backoff_rows": br["rows"],
         "backoff_calls": br["calls"],
